@@ -40,15 +40,31 @@ Definition obs_of_verdict (v : verdict) : obs :=
 
 (* the enumeration orders of Go's map iteration are not observable; C18_deterministic shows
    they do not matter, the replay uses the table's order *)
-Definition enum0 : list bytes := templates_of (t_embedded_ops table).
+Definition enum_of (tbl : HttpGuard.table) : list bytes := templates_of (t_embedded_ops tbl).
 
 (* [with_validator]: the full stack of setupRouter; otherwise the same stack without
    OapiRequestValidator. The validator is not modelled: when the implementation's answer came
    from it, the model must agree that the request got as far as the validator, otherwise the
    model is run with a validator that accepts. *)
-Definition predict (with_validator enable_write : bool) (m raw : bytes) (o : obs) : obs :=
+Definition predict_on (tbl : HttpGuard.table) (with_validator enable_write : bool) (m raw : bytes) (o : obs) : obs :=
   let accepts := negb (with_validator && obs_eqb o OValidator) in
-  obs_of_verdict (serve table (fun _ _ _ => accepts) enable_write enum0 enum0 m raw).
+  obs_of_verdict (serve tbl (fun _ _ _ => accepts) enable_write (enum_of tbl) (enum_of tbl) m raw).
+
+Definition predict := predict_on table.
+
+(* Spec variants (harness/cmd/c18/variants.go): the real document plus added operations, each
+   served by an added route; the guard is given the extended spec through
+   ConfigMiddlewareWithSpec. They exist to exercise the guard's lookup order (exact path
+   before templates) on specs in which a concrete path is matched by a template too. *)
+Definition variant_table (added : list spec_op) : HttpGuard.table := {|
+  t_mount := t_mount table;
+  t_yaml_ops := t_yaml_ops table ++ added;
+  t_embedded_ops := t_embedded_ops table ++ added;
+  t_routes := t_routes table ++ map (fun o => mk_route (op_method o) (op_template o) (ucfirst (op_id o))) added;
+  t_guard_switch := t_guard_switch table;
+  t_should_enable := t_should_enable table;
+  t_senders := t_senders table
+|}.
 
 Definition parse_eqb (a b : option (bytes * bytes)) : bool :=
   match a, b with
@@ -61,7 +77,10 @@ Inductive case :=
   (* request (method, path part of the request target); URL.Path / URL.RawPath as net/http
      parsed them (None: refused); observations on: full stack write-disabled, full stack
      write-enabled, validator-less stack write-disabled, validator-less write-enabled *)
-| CReq (id : N) (method raw : bytes) (parsed : option (bytes * bytes)) (full_off full_on nv_off nv_on : obs).
+| CReq (id : N) (method raw : bytes) (parsed : option (bytes * bytes)) (full_off full_on nv_off nv_on : obs)
+  (* the same on a spec variant *)
+| CVar (id : N) (added : list spec_op) (method raw : bytes) (parsed : option (bytes * bytes))
+       (full_off full_on nv_off nv_on : obs).
 
 Definition check_case (c : case) : list N :=
   match c with
@@ -71,6 +90,14 @@ Definition check_case (c : case) : list N :=
          && obs_eqb (predict true true m raw fn) fn
          && obs_eqb (predict false false m raw no) no
          && obs_eqb (predict false true m raw nn) nn
+      then [] else [id]
+  | CVar id added m raw parsed fo fn no nn =>
+      let tbl := variant_table added in
+      if parse_eqb (parse_path raw) parsed
+         && obs_eqb (predict_on tbl true false m raw fo) fo
+         && obs_eqb (predict_on tbl true true m raw fn) fn
+         && obs_eqb (predict_on tbl false false m raw no) no
+         && obs_eqb (predict_on tbl false true m raw nn) nn
       then [] else [id]
   end.
 
